@@ -65,7 +65,7 @@ struct AnalyserModel::AnalyserModelImpl
     bool mNeedAcschFunction = false;
     bool mNeedAcothFunction = false;
 
-    std::map<uintptr_t, bool> mCachedEquivalentVariables;
+    std::map<std::pair<uintptr_t, uintptr_t>, bool> mCachedEquivalentVariables;
 
     static AnalyserModelPtr create(const ModelPtr &model = nullptr);
 
